@@ -1,14 +1,95 @@
 use cvx::*;
+use std::io::Write;
+
+/// Supervisor: run the check in a child process so that an abort (allocation failure, stack
+/// overflow) or a case that never returns becomes a reported violation naming the case, instead of a
+/// dead check. Exit codes: 0 held, 1 violation, 2 machinery error.
+fn supervise(id: &str, tier: &str) -> i32 {
+    let root = verif_root();
+    let dir = format!("{root}/target/run");
+    let _ = std::fs::create_dir_all(&dir);
+    let crumbs = format!("{dir}/crumbs.{id}.{}", std::process::id());
+    {
+        let f = std::fs::File::create(&crumbs).expect("crumb file");
+        f.set_len((engine::crumb::SLOTS * engine::crumb::SLOT) as u64).expect("crumb file size");
+    }
+    let exe = std::env::current_exe().expect("current exe");
+    let mut child = match std::process::Command::new(exe).args(["run", id, tier]).env("VERIF_CRUMBS", &crumbs).spawn() {
+        Ok(c) => c,
+        Err(e) => {
+            eprintln!("MACHINERY: cannot spawn worker: {e}");
+            return 2;
+        }
+    };
+    // a single case normally takes micro- to milliseconds; the limit is generous
+    let case_limit_ms: u64 = std::env::var("VERIF_CASE_LIMIT_MS").ok().and_then(|s| s.parse().ok()).unwrap_or(if tier == "thorough" { 120_000 } else { 45_000 });
+    let started = std::time::Instant::now();
+    let report = |reason: &str, crumb_text: Vec<(u64, String)>| -> i32 {
+        let rdir = format!("{root}/replays/{id}");
+        let _ = std::fs::create_dir_all(&rdir);
+        let path = format!("{rdir}/crash-{}.json", engine::fnv64(reason.as_bytes()) % 100000);
+        let j = serde_json::json!({"property": id, "reason": reason, "cases_in_flight": crumb_text.iter().map(|(age, t)| serde_json::json!({"running_for_ms": age, "case": t})).collect::<Vec<_>>(),
+            "note": "the worker process died or a case never returned; the cases in flight are listed (choices = replay prefix, later choices 0)"});
+        let _ = std::fs::write(&path, serde_json::to_string_pretty(&j).unwrap());
+        println!("VIOLATION property={id} replay={path} key=crash/{reason} :: worker {reason} while running {} case(s); first: {}", crumb_text.len(), crumb_text.first().map(|c| c.1.clone()).unwrap_or_default());
+        let _ = std::io::stdout().flush();
+        1
+    };
+    let code = loop {
+        match child.try_wait() {
+            Ok(Some(st)) => {
+                use std::os::unix::process::ExitStatusExt;
+                if let Some(sig) = st.signal() {
+                    let c = engine::crumb::read_all(&crumbs);
+                    break report(&format!("killed-by-signal-{sig}"), c);
+                }
+                match st.code() {
+                    Some(c @ (0 | 1 | 2)) => break c,
+                    Some(c) => {
+                        let cr = engine::crumb::read_all(&crumbs);
+                        break report(&format!("abnormal-exit-{c}"), cr);
+                    }
+                    None => break 2,
+                }
+            }
+            Ok(None) => {
+                std::thread::sleep(std::time::Duration::from_millis(200));
+                if started.elapsed().as_secs() % 2 == 0 {
+                    let mut c = engine::crumb::read_all(&crumbs);
+                    c.sort_by(|a, b| b.0.cmp(&a.0));
+                    if c.first().map(|x| x.0 > case_limit_ms).unwrap_or(false) {
+                        let _ = child.kill();
+                        let _ = child.wait();
+                        let stuck: Vec<(u64, String)> = c.into_iter().filter(|x| x.0 > case_limit_ms / 2).collect();
+                        break report("hang", stuck);
+                    }
+                }
+            }
+            Err(e) => {
+                eprintln!("MACHINERY: wait failed: {e}");
+                break 2;
+            }
+        }
+    };
+    let _ = std::fs::remove_file(&crumbs);
+    code
+}
 
 fn main() {
-    engine::install_panic_hook();
     let args: Vec<String> = std::env::args().collect();
     if args.len() < 2 {
-        eprintln!("usage: cvx check <ID> <quick|thorough> | replay <ID> <path> | worker ...");
+        eprintln!("usage: cvx check <ID> <quick|thorough> | replay <ID> <path>");
         std::process::exit(2);
     }
     match args[1].as_str() {
         "check" => {
+            let id = &args[2];
+            let tier = args.get(3).map(|s| s.as_str()).unwrap_or("quick");
+            std::process::exit(supervise(id, tier));
+        }
+        "run" => {
+            engine::install_panic_hook();
+            engine::crumb::init();
             let id = &args[2];
             let tier = args.get(3).map(|s| s.as_str()).unwrap_or("quick");
             match props::run(id, tier) {
@@ -20,8 +101,13 @@ fn main() {
             }
         }
         "replay" => {
+            engine::install_panic_hook();
             let id = &args[2];
             let path = &args[3];
+            if path.contains("/crash-") {
+                println!("{}", std::fs::read_to_string(path).unwrap_or_default());
+                std::process::exit(0);
+            }
             match props::replay(id, path) {
                 Some(code) => std::process::exit(code),
                 None => {
